@@ -12,6 +12,7 @@
 (*     "row"    u's row of t appears silently (peer row of a new p2p       *)
 (*              topic, owner row of a new group), p = has P                *)
 (*     "new"    u subscribes / is invited to t, p = has P                  *)
+(*     "reinvite" u's deleted p2p row is re-created by the peer's {set sub} *)
 (*     "gone"   u's subscription to t is deleted                           *)
 (*     "mute" / "unmute"   u loses / gains P on t                          *)
 (*     "evict"  u's sessions are detached from t (ban)                     *)
@@ -36,6 +37,12 @@ ApplyEv(r, e, a, o) ==
                               Then(IF o.tl /\ e.p /\ ~DEV_P2PUnmuteSilent
                                    THEN Then(r, LAMBDA S : Res(S, <<Out(e.u, Peer(e.t, e.u), "?unkn", "en", TRUE)>>)) ELSE r,
                                    LAMBDA S : NewP2P(S, e.t, e.u, e.p))
+    \* a deleted p2p row re-created by the PEER's {set sub user=X} (anotherUserSub): notifySubChange sees "un-muted" (old mode unset) and,
+    \* since the p2p case was added there, asks the user's 'me' to enable the peer and exchange status - unless the re-created cache
+    \* entry has no topic name (then the request carries an empty source and is lost)
+    [] e.k = "reinvite" -> Then(r, LAMBDA S : Res([S EXCEPT !.sub[e.t][e.u] = [live |-> TRUE, P |-> e.p]],
+                                                   IF e.p /\ ~DEV_P2PUnmuteSilent /\ ~DEV_ReinviteNoTopicName
+                                                   THEN <<Out(e.u, Peer(e.t, e.u), "?unkn", "en", TRUE)>> ELSE <<>>))
     [] e.k = "gone"   -> IF e.t \in Groups THEN Then(r, LAMBDA S : GoneGrp(S, e.t, e.u))
                          ELSE LET v == Peer(e.t, e.u)
                                   peerLive == r.st.sub[e.t][v].live IN
